@@ -123,6 +123,12 @@ def aliases(no, choice):
     return [own]
 
 
+def fresh(s):
+    """an equal but not identical string object, built at run time (as a value read from a file or a command line would
+    be): code that compares strings by identity instead of by value must not get away with it"""
+    return "".join(list(s))
+
+
 def sibling(no, choice):
     """the other axis setting of an R-centred group (None for all other groups)"""
     if no in RHOMB:
